@@ -234,6 +234,22 @@ impl Router {
             }
         }
 
+        /* (re)build the default OPTIONS handlers from the complete route table:
+           methods of one route may come from several `Route` items or several mounted
+           `Ohkami`s, and each of them knew only its own methods when it was registered */
+        for (route, handlers_meta) in &routes {
+            let methods = [Method::GET, Method::PUT, Method::POST, Method::PATCH, Method::DELETE]
+                .into_iter()
+                .filter(|method| handlers_meta.get(method).is_some())
+                .map(|method| method.as_str())
+                .collect::<Vec<_>>();
+            self.OPTIONS.register_handler(
+                route.clone().into_iter(),
+                Handler::default_options_with(methods),
+                true
+            ).expect("Failed to register handler");
+        }
+
         let r#final = super::r#final::Router::from(self);
 
         crate::DEBUG!("finalized: {final:#?}");
